@@ -23,7 +23,12 @@ import (
 	_ "verif/mon"
 )
 
-const root = "/verif"
+var root = func() string {
+	if r := os.Getenv("VERIF_ROOT"); r != "" {
+		return r
+	}
+	return "/verif"
+}()
 
 func main() {
 	if len(os.Args) < 2 {
